@@ -6,4 +6,5 @@ let lookup (p : string) : Model.sexp -> Model.sexp =
   | "c14" -> Model.run_c14
   | "c17" -> Model.run_c17
   | "c18" -> Model.run_c18
+  | "c01" -> Model.run_c01
   | _ -> failwith ("unknown property " ^ p)
